@@ -152,6 +152,7 @@ type ttmlDoc struct {
 type ttmlRendering struct {
 	Indent     string `json:"indent"`               // "" = single line; otherwise elements on their own lines
 	PIndent    bool   `json:"p_indent"`             // put each child of <p> on its own line (only when every run is a span)
+	BrForm     int    `json:"br_form,omitempty"`    // 0 <br/>, 1 <BR/>, 2 <tt:br/>
 	AnonBreak  bool   `json:"anon_break,omitempty"` // the source line ends right after text written directly in <p> (before a span, a <br/> or </p>)
 	StylePfx   string `json:"style_pfx"`            // "tts", "s", "" (unprefixed)
 	XMLID      bool   `json:"xml_id"`               // xml:id vs id
@@ -231,7 +232,7 @@ func renderTTML(d ttmlDoc, r ttmlRendering) []byte {
 	if r.XMLID {
 		idAttr = "xml:id"
 	}
-	sb.WriteString(`<tt xmlns="http://www.w3.org/ns/ttml" xmlns:ttm="http://www.w3.org/ns/ttml#metadata" xmlns:ttp="http://www.w3.org/ns/ttml#parameter"`)
+	sb.WriteString(`<tt xmlns="http://www.w3.org/ns/ttml" xmlns:tt="http://www.w3.org/ns/ttml" xmlns:ttm="http://www.w3.org/ns/ttml#metadata" xmlns:ttp="http://www.w3.org/ns/ttml#parameter"`)
 	if r.StylePfx != "" {
 		fmt.Fprintf(&sb, ` xmlns:%s="http://www.w3.org/ns/ttml#styling"`, r.StylePfx)
 	}
@@ -298,6 +299,14 @@ func renderTTML(d ttmlDoc, r ttmlRendering) []byte {
 	br := "<br/>"
 	if r.BrLong {
 		br = "<br></br>"
+	}
+	switch r.BrForm {
+	case 1:
+		// the element in upper case
+		br = strings.ReplaceAll(br, "br", "BR")
+	case 2:
+		// the element with the prefix the TTML namespace is also bound to
+		br = strings.ReplaceAll(strings.ReplaceAll(br, "</br", "</tt:br"), "<br", "<tt:br")
 	}
 	for ci, c := range d.Cues {
 		if r.TwoDivs && ci > 0 && ci == len(d.Cues)/2 {
@@ -780,7 +789,7 @@ func genAttrs(t *rapid.T, label string, max int) map[string]string {
 }
 
 func genTTMLTime(t *rapid.T, frameRate, tickRate int64, msGrid bool, label string) ttmlTime {
-	h := rapid.SampledFrom([]int64{0, 0, 0, 1, 9, 10, 23, 99}).Draw(t, label+"h")
+	h := rapid.SampledFrom([]int64{0, 0, 0, 1, 9, 10, 23, 99, 100, 123, 1000}).Draw(t, label+"h")
 	m := rapid.Int64Range(0, 59).Draw(t, label+"m")
 	s := rapid.Int64Range(0, 59).Draw(t, label+"s")
 	if msGrid {
@@ -936,6 +945,7 @@ func genTTMLRendering(t *rapid.T) ttmlRendering {
 		TwoDivs:    rapid.IntRange(0, 3).Draw(t, "twodivs") == 0,
 		BrLong:     rapid.IntRange(0, 3).Draw(t, "brlong") == 0,
 		AnonBreak:  rapid.IntRange(0, 2).Draw(t, "anonbreak") == 0,
+		BrForm:     rapid.SampledFrom([]int{0, 0, 1, 2}).Draw(t, "brform"),
 		EOL:        rapid.SampledFrom([]string{"\n", "\n", "\r\n"}).Draw(t, "eol"),
 	}
 }
